@@ -225,6 +225,19 @@ Proof.
   eexists. split; [vm_compute; reflexivity|]. split; vm_compute; reflexivity.
 Qed.
 
+(* a value of 52 fragments (13006 bytes = 51*255 + 1: more re-joined fragments than any small constant) behind another
+   field.  The theorems above have no bound on the length of a value; here the model is actually run on a long one
+   (round 8: a seeded bound of 50 continuation fragments in tlv_iterator decoded such a value to its last byte). *)
+Example c16_long_nonvacuous :
+  let t := TStruct [(9%N, TInt U8); (1%N, TBytes)] in
+  let v := VStruct [Some (VInt 3); Some (VB (repeat 1%N (N.to_nat 13006)))] in
+  wf_schema t = true /\ fits_msg t v = true /\
+  (exists e, tlv8_encode t v = Ok e /\ N.of_nat (length e) = 13113%N /\ tlv8_decode t e = Ok v).
+Proof.
+  cbv zeta. split; [vm_compute; reflexivity|]. split; [vm_compute; reflexivity|].
+  eexists. split; [vm_compute; reflexivity|]. split; vm_compute; reflexivity.
+Qed.
+
 (* an accessory sending the items in another order: 02 01 07 | 01 01 05 *)
 Example c16_order_nonvacuous :
   let t := TStruct [(1%N, TInt U8); (2%N, TBytes)] in
